@@ -387,6 +387,52 @@ def rule_compact(ctx, res):
         if len(ext) != 2 or not find_calls(ext[0][2][1], '::octets') or not find_calls(ext[1][2][1], 'to_be_bytes') or not find_calls(ext[1][2][1], '::port'):
             oke = False
     res.check(oke, 'TABLE', eb.path, 'compact address = address octets followed by the big-endian port (sibling of from_be_bytes)')
+    # .. and the family written is the family of the address given (an IPv6 socket address is 18 bytes whatever its
+    # contents: BEP32 has no "mapped" short form, and the decoder gives back V6 only for 18 bytes)
+    fams = {'V4': 0, 'V6': 1}
+
+    def classify_e(lit, c):
+        rel, a, b2, truth = lit
+        if rel == 'variant':
+            a0 = strip_transparent(a)
+            direct = is_param(a0, 'addr') or (isinstance(a0, tuple) and a0[0] == 'call' and a0[1] == 'std::net::SocketAddr::ip' and is_param(strip_transparent(a0[2][0]), 'addr'))
+            if direct:
+                if isinstance(b2, tuple) and b2[0] == 'not':
+                    return ('F', {k for k in fams if fams[k] not in b2[1]})
+                return ('F', {k for k in fams if fams[k] == b2})
+        if rel == 'bool' and isinstance(a, tuple) and a[0] == 'call' and a[1] in ('std::net::SocketAddr::is_ipv4', 'std::net::SocketAddr::is_ipv6') and is_param(strip_transparent(a[2][0]), 'addr'):
+            v4 = (a[1].endswith('is_ipv4')) == bool(truth)
+            return ('F', {'V4'} if v4 else {'V6'})
+        if rel == 'bool' and term_int(a) is not None:
+            return None
+        raise lib.Lost('encode_socket_addr: unrecognised condition %s %s' % (rel, fmt(a)))
+
+    def outcome_e(p):
+        ext = [e for e in p.effects if e[0] == 'call' and e[1] and e[1].endswith('::extend')]
+        if not ext:
+            return 'no-octets'
+        oc = find_calls(ext[0][2][1], '::octets')
+        if len(oc) != 1:
+            return 'no-octets'
+        # the octets are those of the given address: only `ip()` accessors between the parameter and octets()
+        recv = strip_transparent(oc[0][2][0])
+        while isinstance(recv, tuple) and recv[0] == 'call' and recv[1] in ('std::net::SocketAddrV4::ip', 'std::net::SocketAddrV6::ip'):
+            recv = strip_transparent(recv[2][0])
+        if isinstance(recv, tuple) and recv[0] == 'field' and isinstance(recv[1], tuple) and recv[1][0] == 'downcast':
+            base = strip_transparent(recv[1][1])
+            if isinstance(base, tuple) and base[0] == 'call' and base[1] == 'std::net::SocketAddr::ip':
+                base = strip_transparent(base[2][0])
+            if is_param(base, 'addr'):
+                return oc[0][1].split('::')[-2]
+        return 'octets-of:' + fmt(recv)[:60]
+
+    try:
+        tab_e = lib.Table.build(es.complete_paths(), classify_e, outcome_e)
+        bad_e, n_e = tab_e.compare({'F': ['V4', 'V6']}, lambda v: 'Ipv4Addr' if v['F'] == 'V4' else 'Ipv6Addr')
+        res.check(not bad_e, 'TABLE', eb.path, 'the address family written is the family of the SocketAddr given: V4 -> its 4 octets, V6 -> its 16 octets (no canonicalisation)',
+                  detail='; '.join('%s -> got %s want %s' % (v, g, e) for v, g, e in bad_e[:4]), key='encode-family')
+    except lib.Lost as e:
+        res.bad('TABLE', eb.path, 'the address family written is the family of the SocketAddr given', detail=str(e), key='encode-family')
     # values: each element a byte string through encode/decode_socket_addr
     vb = find_body(ctx, r"^<compact::values::deserialize::SocketAddrsVisitor as .*Visitor<'de>>::visit_seq$")
     res.touch(vb)
